@@ -600,8 +600,10 @@ fn run(tier: Tier, shard: usize, nshards: usize, _seed: u64) -> Partial {
         if i % nshards != shard {
             continue;
         }
-        let (_, o) = scenario(Chooser::default_run(), c, false, i % 50 == shard);
-        record(c, &[], &o, &mut out);
+        super::guard_dead_actor(&mut out, &format!("{}/m{}", KINDS[c.kind], c.m), json!({"cfg": cfg_json(c), "choices": []}), |out| {
+            let (_, o) = scenario(Chooser::default_run(), c, false, i % 50 == shard);
+            record(c, &[], &o, out);
+        });
     }
     {
         // every single latency deviation (answers overtaking each other) on the base
